@@ -31,9 +31,17 @@ def validate_and_store(seed, wt):
     demo = f"{HERE}/seeded/{seed}/demo.py"
     rc1, out1 = sh(f"timeout 600 /venv/bin/python {demo}", cwd=wt, env=env)
     rc_s, out_s = sh("timeout 900 /venv/bin/python -m pytest -q -p no:cacheprovider -n 8 2>&1 | tail -1", cwd=wt, env=env)
-    sh("git stash -q", cwd=wt)
-    rc0, out0 = sh(f"timeout 600 /venv/bin/python {demo}", cwd=wt, env=env)
-    sh("git stash pop -q", cwd=wt)
+    # (git stash is shared between the worktrees of one repository: reverse-apply the patch instead)
+    tmp = os.path.join(wt, "_port.diff")
+    open(tmp, "w").write(diff)
+    rcr, outr = sh(f"git apply -R {tmp}", cwd=wt)
+    assert rcr == 0, outr
+    try:
+        rc0, out0 = sh(f"timeout 600 /venv/bin/python {demo}", cwd=wt, env=env)
+    finally:
+        rca, outa = sh(f"git apply {tmp}", cwd=wt)
+        assert rca == 0, outa
+        os.remove(tmp)
     ok = rc1 != 0 and rc0 == 0 and re.search(r"\b\d+ passed", out_s) and not re.search(r"\b\d+ (failed|error)", out_s)
     print(f"  {seed}: demo with change exit={rc1}, without exit={rc0}, suite: {out_s.strip()}")
     if ok:
